@@ -197,6 +197,13 @@ for arch, vdef in ARCHS:
     # contract stubs (nb <= VEC_LEN+8). The harnesses stay in specs/c09_quote.c (h_Quote, h_Quote_exact, h_Quote_stubs); no job runs them.
 # (a fourth route, Quote's tail block as a verbatim fragment with constant-size objects and -DPAGE_SIZE=256 — unit "Quote.tail",
 #  harness h_Quote_tail — also timed out at 15 min; no job runs it)
+for arch, vdef in ARCHS:
+    for path, xd in (("production", []), ("sanitize", ["SANITIZE_PATH"])):
+        C09_JOBS.append(dict(id="C09.Quote.tailguard.%s@%s" % (path, arch), src="c09_quote.c", harness="h_Quote_tailguard",
+            units=arch_units(arch) + ["QuotedChar", "kQuoteTab", "kNeedEscaped", "DoEscape", "CopyAndGetEscapMask", "MOVE_N_CHARS", "Quote", "Quote.tailguard"],
+            defs=[vdef, "UNIT_TailGuard"] + xd, arch=arch, route="L", function="Quote: tail source selection (%s path), verbatim fragment" % path, unwind=2, timeout=600, replay="quote",
+            claims="complete for the fragment: all tails 1 <= nb < VEC_LEN, " + ("all offsets in a two-page object incl. strings ending on its last byte" if not xd else "exact-size heap source") +
+                   ": the source selected for the tail loop (in place under the page-offset guard, else the stack copy) has nb - 1 + VEC_LEN readable bytes; the copy stays inside the stack buffer and the string. (That the loop reads at most that far is read off the code; Quote's loops are undecided.)"))
 C09_JOBS.append(dict(id="C09.tables", src="c09_quote.c", harness="h_quote_tables", units=C09_JOBS[0]["units"], defs=["VEC_LEN=32"], arch="avx2", route="L", function="kQuoteTab / kNeedEscaped",
     replay="quotetab", claims="all 256 bytes: need-escape flag, escape length (0/2/6) and escape text equal RFC 8259 section 7; the 8 bytes DoEscape copies are readable"))
 C09_JOBS.append(dict(id="C09.DoEscape", src="c09_quote.c", harness="h_DoEscape", units=C09_JOBS[0]["units"], defs=["VEC_LEN=32"], arch="avx2", route="U", function="DoEscape",
@@ -324,6 +331,9 @@ C04_JOBS.append(dict(id="C04.ParseFloatingNormalFast.normal", src="c04_number.c"
     units=C04_UNITS + ["avx2.LeadingZeroes", "kPow10M128Tab", "MulU64", "AtofEiselLemire64", "ParseFloatingNormalFast"], defs=["UNIT_EiselLemire", "CONTRACT_DUMMY"], arch="-", route="L",
     function="ParseFloatingNormalFast", enforce="ParseFloatingNormalFast_real", flags=["--slice-formula"], timeout=900, replay="normalfast",
     claims="all mantissas != 0, -307 < exp10 < 288, both signs: table index in range, every shift amount defined, and a successful conversion is a normal finite double with the requested sign. Its ROUNDING is not decided"))
+C04_JOBS.append(dict(id="C04.ShouldRoundup", src="c04_number.c", harness="h_ShouldRoundup", units=C04_UNITS + ["Decimal", "DECIMAL_MAX_DNUM", "ShouldRoundup"], defs=["UNIT_ShouldRoundup"], arch="-", route="L",
+    function="ShouldRoundup (big-decimal fallback)", timeout=600, replay="roundup",
+    claims="all trimmed digit strings of up to 800 digits, all positions, both truncation flags: the round-up decision is IEEE round-half-to-even of the discarded digits (truncated non-zero tail counts as above one half); reads stay inside the digit array"))
 PROPS["C04"] = dict(level="other", jobs=C04_JOBS, trusted_base=COMMON_TRUST, assumptions=[], undecided=[], explanation="")
 
 
